@@ -39,6 +39,10 @@ def plan(tier, seed):
         combos = combos[:120]
     shards.append({'name': 'tight_a', 'kind': 'tight', 'N': 16 if tier == 'quick' else 30, 'combos': combos[0::2]})
     shards.append({'name': 'tight_b', 'kind': 'tight', 'N': 16 if tier == 'quick' else 30, 'combos': combos[1::2]})
+    shards.append({'name': 'w5', 'kind': 'w5', 'N': 6 if tier == 'quick' else 9,
+                   'n': 20 if tier == 'quick' else 200, 'seed': seed * 1000 + 137})
+    shards.append({'name': 'large', 'kind': 'large', 'sizes': [1100, 2300] if tier == 'quick' else
+                   [600, 1100, 2300, 4100]})
     shards.append({'name': 'person', 'kind': 'person', 'seed': seed * 1000 + 135,
                    'n': 40 if tier == 'quick' else 300})
     return shards
@@ -235,10 +239,55 @@ def tight_case(case, rec, ssj):
     return {'nontrivial': nt, 'call': call, 'fspec': fspec}
 
 
+def w5_case(case, rec, ssj):
+    """Join versus pipeline on the rare-shared-token tables (every shared token inside both
+    prefixes), thresholds at / next to attained scores, with and without the score column."""
+    m, t = case['measure'], case['threshold']
+    L, R, groups = gen.rare_shared_tables(case['N'])
+    call = {'api': T.MEASURE_JOIN[m], 'ltable': L, 'rtable': R, 'l_key': 'id', 'r_key': 'id',
+            'l_attr': 's', 'r_attr': 's', 'tok': {'kind': 'ws', 'return_set': True}, 'threshold': t,
+            'comp_op': case.get('comp_op', '>='), 'allow_empty': True, 'allow_missing': False,
+            'out_sim_score': case.get('out_sim_score', True), 'n_jobs': case.get('n_jobs', 1)}
+    fspec = {'kind': case['filter'], 'measure': m, 'threshold': t, 'overlap_size': 1, 'comp_op': '>='}
+    res = run_pipeline(ssj, rec, case, call, fspec, 1, 1, m)
+    nt = 0
+    if res is not None:
+        nt = compare(rec, case, call, m, res[0], res[1], fspec)
+    rec.count('pairs_compared', nt)
+    rec.count('w5_cases')
+    return {'nontrivial': nt, 'call': call, 'fspec': fspec}
+
+
+def large_case(case, rec, ssj):
+    """Join versus pipeline on tables beyond 1000 / 2048 rows (filler rows, planted matching pairs,
+    near misses whose score depends on a token that occurs in one row only)."""
+    m, t = case['measure'], case['threshold']
+    L, R, planted = gen.large_planted_tables(random.Random(case['seed']), case['n'], 'ws')
+    call = {'api': T.MEASURE_JOIN[m], 'ltable': L, 'rtable': R, 'l_key': 'id', 'r_key': 'id',
+            'l_attr': 's', 'r_attr': 's', 'tok': {'kind': 'ws', 'return_set': True}, 'threshold': t,
+            'comp_op': case.get('comp_op', '>='), 'allow_empty': True, 'allow_missing': False,
+            'out_sim_score': True, 'n_jobs': case.get('n_jobs', 1)}
+    nt = 0
+    fspec = None
+    for kind in case['filters']:
+        fspec = {'kind': kind, 'measure': m, 'threshold': t, 'overlap_size': 1, 'comp_op': '>='}
+        res = run_pipeline(ssj, rec, case, call, fspec, 1, 2, m)
+        if res is None:
+            continue
+        nt = max(nt, compare(rec, case, call, m, res[0], res[1], fspec))
+    rec.count('pairs_compared', nt)
+    rec.count('large_table_cases')
+    return {'nontrivial': nt, 'call': call, 'fspec': fspec}
+
+
 def run_case(case, rec, ssj=None, person=None):
     ssj = ssj or env.load()
     if case['gen'] == 'tight':
         return tight_case(case, rec, ssj)
+    if case['gen'] == 'large':
+        return large_case(case, rec, ssj)
+    if case['gen'] == 'w5':
+        return w5_case(case, rec, ssj)
     rng = random.Random(case['seed'])
     if case.get('person') and person is None:
         person = load_person(ssj)
@@ -278,6 +327,32 @@ def run_shard(shard, rec):
             rec.case(sig=('tight', m, t, shard['N'], case['comp_op']), nontrivial=st['nontrivial'] > 0, n=4)
             rec.add('api_filter', (st['call']['api'], 'tight'))
         rec.sample({'workload': 'tight tables', 'N': shard['N'], 'combos': shard['combos'][:3]}, limit=1)
+        shard = dict(shard, n=0)
+    if shard['kind'] == 'w5':
+        rng = random.Random(shard['seed'])
+        for m in ('JACCARD', 'COSINE', 'DICE', 'OVERLAP_COEFFICIENT'):
+            for i, t in enumerate(gen.near_score_thresholds(m, shard['N'], rng, shard['n'])):
+                case = {'gen': 'w5', 'N': shard['N'], 'measure': m, 'threshold': t,
+                        'comp_op': ('>=', '>=', '>', '=')[i % 4], 'out_sim_score': i % 2 == 1,
+                        'filter': ('SizeFilter', 'OverlapFilter', 'PrefixFilter')[i % 3] if m != 'OVERLAP_COEFFICIENT'
+                        else 'OverlapFilter', 'n_jobs': 1 + i % 2}
+                st = w5_case(case, rec, ssj)
+                rec.case(sig=('w5', m, t, case['comp_op'], case['out_sim_score']), nontrivial=st['nontrivial'] > 0, n=3)
+                rec.add('api_filter', (st['call']['api'], 'w5'))
+        rec.sample({'workload': 'W5 rare shared tokens', 'N': shard['N']}, limit=1)
+        shard = dict(shard, n=0)
+    if shard['kind'] == 'large':
+        for x, n in enumerate(shard['sizes']):
+            for y, (m, t) in enumerate([('JACCARD', 0.8), ('JACCARD', 0.6), ('COSINE', 0.85), ('DICE', 0.7)]):
+                if rec.tier == 'quick' and (x + y) % 2 and y > 1:
+                    continue
+                case = {'gen': 'large', 'n': n, 'measure': m, 'threshold': t, 'seed': 55 + 7 * x + y,
+                        'filters': ['PrefixFilter', 'OverlapFilter'] if (x + y) % 2 else ['PositionFilter', 'OverlapFilter'],
+                        'n_jobs': 1 + (x + y) % 2}
+                st = large_case(case, rec, ssj)
+                rec.case(sig=('large', n, m, t), nontrivial=st['nontrivial'] > 0, n=3)
+                rec.add('api_filter', (st['call']['api'], 'large'))
+        rec.sample({'workload': 'large tables', 'sizes': shard['sizes']}, limit=1)
         shard = dict(shard, n=0)
     for i in range(shard['n']):
         case = {'gen': 'pl', 'seed': shard['seed'] * 100000 + i, 'person': shard['kind'] == 'person'}
